@@ -119,8 +119,14 @@ func refJA4(s *c02Spec) string {
 	sort.Slice(exts, func(i, j int) bool { return exts[i] < exts[j] })
 	b := refTrunc(refJoin(ciphers))
 	cIn := refJoin(exts)
-	if len(s.sigalgs) > 0 {
-		cIn += "_" + refJoin(s.sigalgs)
+	var sigalgs []uint16
+	for _, a := range s.sigalgs {
+		if !refIsGREASE(a) { // "GREASE values are ignored everywhere"
+			sigalgs = append(sigalgs, a)
+		}
+	}
+	if len(sigalgs) > 0 {
+		cIn += "_" + refJoin(sigalgs)
 	}
 	return a + "_" + b + "_" + refTrunc(cIn)
 }
